@@ -515,7 +515,7 @@ func TestProp(t *testing.T) {
 		}
 		r.LabelN("file_system_independence_checks", 3)
 	}
-	r.Rapid(t, "rounds", r.Pick(240, 8000), func(t *rapid.T) {
+	r.Rapid(t, "rounds", r.Pick(240, 4000), func(t *rapid.T) {
 		c := Case{Kind: "round", N: 2 + int(rapid.Uint64().Draw(t, "n")%7)} // (uniform: rapid.IntRange favours the small values)
 		c.Big = rapid.Uint64().Draw(t, "big")%8 == 7
 		np := 1
